@@ -78,6 +78,7 @@ class Harness(object):
                 return ConnProxy(c, harness.ctl)
         las.sqlite3 = _Sqlite()
         self.values = {}
+        self.blobs = {}
 
     def fresh_path(self):
         self.n += 1
@@ -101,7 +102,9 @@ class Harness(object):
     def value(self, table, v, key=None):
         k = (table, v, key if table in ("prekeys", "signed") else None)
         if k in self.values:
-            return self.values[k]
+            # records are mutable objects: every use gets its own copy, rebuilt from the bytes frozen when the value was made
+            # (a store that edits the record it is handed must not thereby edit what the harness compares with)
+            return self.copy_of(table, k)
         from axolotl.ecc.curve import Curve
         from axolotl.identitykey import IdentityKey
         from axolotl.state.sessionrecord import SessionRecord
@@ -123,13 +126,26 @@ class Harness(object):
             val = SignedPreKeyRecord(KEYID[key], 1600000000 + n, Curve.generateKeyPair(), bytes(bytearray([n] * 64)))
         else:
             r = SenderKeyRecord()
-            r.addSenderKeyState(n, 0, bytes(bytearray([n] * 32)), Curve.generateKeyPair().getPublicKey())
+            # v1: one state; the others: as many states as that participant distributed keys (key rotations, reinstalls) - 7 for v2
+            for j in range(1 if n == 1 else 5 + n):
+                r.addSenderKeyState(n * 10 + j, j, bytes(bytearray([n + j] * 32)), Curve.generateKeyPair().getPublicKey())
             val = r
         self.values[k] = val
-        return val
+        self.blobs[k] = bytes(val.getPublicKey().serialize()) if table == "identities" else bytes(val.serialize())
+        return self.copy_of(table, k)
+
+    def copy_of(self, table, k):
+        from axolotl.state.sessionrecord import SessionRecord
+        from axolotl.state.prekeyrecord import PreKeyRecord
+        from axolotl.state.signedprekeyrecord import SignedPreKeyRecord
+        from axolotl.groups.state.senderkeyrecord import SenderKeyRecord
+        if table == "identities":
+            return self.values[k]
+        cls = {"sessions": SessionRecord, "prekeys": PreKeyRecord, "signed": SignedPreKeyRecord, "senderkeys": SenderKeyRecord}[table]
+        return cls(serialized=self.blobs[k])
 
 
-KEYID = {"k1": 11, "k2": 12, "k3": 13}
+KEYID = {"k1": 0, "k2": 12, "k3": 13}       # 0 is a key id like any other (an account's first signed prekey has it)
 RECIP = {"k1": 4915770000001, "k2": 4915770000002, "k3": 4915770000003}
 
 
@@ -190,10 +206,9 @@ def project(h, path, live=None, inner=False):
     problems = []
 
     def ident(table, blob, key=None):
-        for (t, v, kk), val in h.values.items():
+        for (t, v, kk), ser in h.blobs.items():
             if t == table and (kk is None or kk == key):
-                ser = val.getPublicKey().serialize() if table == "identities" else val.serialize()
-                if bytes(ser) == bytes(blob):
+                if ser == bytes(blob):
                     return v
         return "UNKNOWN"
     unsent = set(r.getId() for r in st.preKeyStore.loadUnsentPendingPreKeys())
@@ -468,6 +483,58 @@ def profiles_of_one_number(r):
         roots.close()
 
 
+def after_refused_bundle(r):
+    """Durability does not depend on what happened earlier in the process: after the manager refused a contact's key bundle (changed
+    identity, automatic trust off - an error the layers expect and handle), whatever is stored afterwards is read back by a fresh store
+    opened on a copy of the database files taken at that moment (= the process killed there)."""
+    from harness import e2ekit
+    from yowsup.common.tools import StorageTools
+    from yowsup.axolotl.store.sqlite.liteaxolotlstore import LiteAxolotlStore
+    from yowsup.axolotl import exceptions
+    from axolotl.state.prekeybundle import PreKeyBundle
+    roots = e2ekit.Roots()
+    try:
+        r.case(("after-refused-bundle",))
+        r.cov["traces_validated_against_impl"] += 1
+        me = e2ekit.make_profile("4915770008801").axolotl_manager
+        peers = [e2ekit.make_profile("4915770008802", "peer-install-%d" % i).axolotl_manager for i in (1, 2)]
+        other = e2ekit.make_profile("4915770008803").axolotl_manager
+
+        def bundle(m):
+            m.level_prekeys(force=True)
+            pk = m.load_unsent_prekeys()[0]
+            spk = m.load_latest_signed_prekey(generate=True)
+            return PreKeyBundle(m.registration_id, 1, pk.getId(), pk.getKeyPair().getPublicKey(), spk.getId(), spk.getKeyPair().getPublicKey(),
+                                spk.getSignature(), m.identity.getPublicKey())
+        me.create_session("4915770008802", bundle(peers[0]))
+        refused = False
+        try:
+            me.create_session("4915770008802", bundle(peers[1]))     # the contact re-installed: another identity
+        except exceptions.UntrustedIdentityException:
+            refused = True
+        me.create_session("4915770008803", bundle(other))
+        me.encrypt("4915770008803", b"first message")
+        db = StorageTools.constructPath("4915770008801", "axolotl.db")
+        snap = tempfile.mkdtemp(prefix="verif_c13_snap_", dir=os.path.dirname(os.path.dirname(db)))
+        try:
+            for f in os.listdir(os.path.dirname(db)):
+                if f.startswith("axolotl.db"):
+                    shutil.copy(os.path.join(os.path.dirname(db), f), os.path.join(snap, f))
+            st = LiteAxolotlStore(os.path.join(snap, "axolotl.db"))
+            have = st.containsSession("4915770008803", 1)
+            have_first = st.containsSession("4915770008802", 1)
+            st.identityKeyStore.dbConn.close()
+        finally:
+            shutil.rmtree(snap, ignore_errors=True)
+        if not refused:
+            r.notes["after_refused_bundle_not_refused"] = True
+        if not have or not have_first:
+            r.violation("durable:after-refused-bundle", "after a refused key bundle (changed identity), a session created and used afterwards is %s and the earlier one %s in the database files as they are on disk at that moment" % (
+                "present" if have else "MISSING", "present" if have_first else "MISSING"), {})
+    finally:
+        roots.close()
+
+
 def run():
     r = core.Run("C13", "model_checking")
     thorough = r.tier == "thorough"
@@ -535,6 +602,7 @@ def run():
         second_device(r, h)
         own_identity_first_open(r, work)
         profiles_of_one_number(r)
+        after_refused_bundle(r)
     finally:
         shutil.rmtree(work, ignore_errors=True)
     r.assumptions += core.ENV_ASSUMPTIONS[:1] + [
